@@ -4,7 +4,7 @@ from hypothesis import strategies as st
 import harness.compat  # noqa: F401
 from harness import refmodel as rm
 from harness import strategies as S
-from harness.build import mktx, chrom_parent, STRAND
+from harness.build import mktx, chrom_parent, chunk_parent, STRAND
 from harness.core import Leg, Prop
 from inscripta.biocantor.exc import InvalidPositionException, NoncodingTranscriptError, LocationOverlapException
 
@@ -24,8 +24,13 @@ def check_tx(spec, ctx):
     T = rm.positions(ex, strand)
     n = len(T)
     g = spec.get("genome")
-    parent = chrom_parent(g) if g else None
+    chunk = spec.get("chunk") if g else None
+    parent = (chunk_parent(g, chunk[0], chunk[1]) if chunk else chrom_parent(g)) if g else None
     tx = mktx(spec, parent)
+    if chunk:
+        # the same transcript seen through a sequence chunk: every chromosome-coordinate conversion must answer as without it
+        inside = [p for p in T if chunk[0] <= p < chunk[1]]
+        ctx.label("on_chunk", "chunk_cuts_transcript" if 0 < len(inside) < len(T) else ("chunk_misses_transcript" if not inside else "chunk_contains_transcript"))
     coding = "cds" in spec
     multi = len(ex) > 1
     if strand == "-":
@@ -35,8 +40,9 @@ def check_tx(spec, ctx):
     for t, p in enumerate(T):
         ctx.eq("transcript_pos_to_sequence", tx.transcript_pos_to_sequence(t), p)
         ctx.eq("sequence_pos_to_transcript", tx.sequence_pos_to_transcript(p), t)
-        ctx.eq("chunk_relative_pos_to_transcript", tx.chunk_relative_pos_to_transcript(p), t)
-        ctx.eq("transcript_pos_to_chunk_relative", tx.transcript_pos_to_chunk_relative(t), p)
+        if not chunk:
+            ctx.eq("chunk_relative_pos_to_transcript", tx.chunk_relative_pos_to_transcript(p), t)
+            ctx.eq("transcript_pos_to_chunk_relative", tx.transcript_pos_to_chunk_relative(t), p)
     tset = set(T)
     for p in range(max(0, lo - 1), hi + 2):
         if p not in tset:
@@ -129,8 +135,9 @@ def check_tx(spec, ctx):
         # chromosome -> CDS equals chromosome -> transcript -> CDS
         ctx.eq("path_commutes", tx.transcript_pos_to_cds(tx.sequence_pos_to_transcript(p)), tx.sequence_pos_to_cds(p))
         ctx.eq("sequence_pos_to_amino_acid", tx.cds.sequence_pos_to_amino_acid(p), c // 3)
-        ctx.eq("cds_pos_to_chunk_relative", tx.cds_pos_to_chunk_relative(c), p)
-        ctx.eq("chunk_relative_pos_to_cds", tx.chunk_relative_pos_to_cds(p), c)
+        if not chunk:
+            ctx.eq("cds_pos_to_chunk_relative", tx.cds_pos_to_chunk_relative(c), p)
+            ctx.eq("chunk_relative_pos_to_cds", tx.chunk_relative_pos_to_cds(p), c)
     for t, p in enumerate(T):
         if p not in cset:
             expect_reject(ctx, "sequence_pos_to_cds_outside_accepted", tx.sequence_pos_to_cds, p)
@@ -168,23 +175,38 @@ def check_tx(spec, ctx):
         utr3 = tx.get_3p_interval()
     except Exception as e:
         ctx.fail("utr3_raises", {"exc": repr(e)[:120], "i": i, "j": j, "n": n})
+    if chunk:
+        # documented: on a chunk-relative transcript the UTRs are chunk-relative - i.e. the part of each UTR on the chunk
+        sh = lambda ps: [p - chunk[0] for p in ps if chunk[0] <= p < chunk[1]]  # noqa: E731
+        U5, U3, CC = sh(T[:i]), sh(T[j:]), sh(C)
+        if 0 < len(U5) < i or 0 < len(U3) < n - j:
+            ctx.nt("chunk_cuts_utr")
+    else:
+        U5, U3, CC = T[:i], T[j:], None
     if utr5 is not None:
-        ctx.eq("utr5_positions", rm.loc_positions(utr5), T[:i])
-        ctx.eq("utr5_len", len(utr5), i)
-        if i:
+        ctx.eq("utr5_positions", rm.loc_positions(utr5) if len(utr5) else [], U5)
+        ctx.eq("utr5_len", len(utr5), len(U5))
+        if U5:
             ctx.eq("utr5_strand", rm.loc_strand(utr5), strand)
     if utr3 is not None:
-        ctx.eq("utr3_positions", rm.loc_positions(utr3), T[j:])
-        ctx.eq("utr3_len", len(utr3), n - j)
-        if n - j:
+        ctx.eq("utr3_positions", rm.loc_positions(utr3) if len(utr3) else [], U3)
+        ctx.eq("utr3_len", len(utr3), len(U3))
+        if U3:
             ctx.eq("utr3_strand", rm.loc_strand(utr3), strand)
-    if utr5 is not None and utr3 is not None:
+    if utr5 is not None and utr3 is not None and not chunk:
         allp = rm.loc_positions(utr5) + rm.loc_positions(tx.cds_location) + rm.loc_positions(utr3)
         # with a skipped base the three parts cover the exons except that base
         ctx.eq("utr_cds_partition_in_order", allp, [p for t, p in enumerate(T) if t < i or t >= j or p in cset])
         ctx.eq("utr_cds_disjoint", len(set(allp)), len(allp))
+    if utr5 is not None and utr3 is not None and chunk and g:
+        # on the chunk: the UTR pieces spell the corresponding stretches of the chunk sequence
+        cg = g[chunk[0]:chunk[1]]
+        if U5:
+            ctx.eq("utr5_sequence_on_chunk", str(utr5.extract_sequence()), rm.seq_image(cg, U5, strand))
+        if U3:
+            ctx.eq("utr3_sequence_on_chunk", str(utr3.extract_sequence()), rm.seq_image(cg, U3, strand))
     # with sequence: the three parts spell the transcript
-    if g:
+    if g and not chunk:
         mrna = str(tx.get_transcript_sequence())
         ctx.eq("transcript_sequence", mrna, rm.seq_image(g, T, strand))
         if utr5 is not None and utr3 is not None:
@@ -203,6 +225,10 @@ def strat_tx(draw, tier="quick"):
     if draw(st.booleans()):
         hi = sp["exons"][-1][1]
         sp["genome"] = draw(S.dna(hi + 2, hi + 2))
+        if draw(st.integers(0, 2)) == 0:
+            # seen through a sequence chunk that contains, cuts or misses the transcript
+            a = draw(st.integers(0, hi + 1))
+            sp["chunk"] = [a, draw(st.integers(a + 1, hi + 2))]
     return sp
 
 
@@ -221,8 +247,8 @@ PROP = Prop(
     pid="C06",
     legs=[
         Leg("transcript", check_tx, strategy=strat_tx, examples=EX, n_quick=900, n_thorough=9000, shards_quick=4,
-            must_hit=["cds_reaches_3p&multi_exon", "cds_reaches_5p&multi_exon", "cds_on_exon_boundary", "single_exon_full_cds", "minus", "noncoding", "cds_with_skipped_base"],
-            rule="transcripts (1..5/6 exons, both strands, coding with the CDS a contiguous run [i,j) of the transcript biased to ends and exon boundaries, or non-coding), with/without sequence; every transcript, CDS and chromosome position in span+-1, random intervals in each system, UTRs, introns"),
+            must_hit=["cds_reaches_3p&multi_exon", "cds_reaches_5p&multi_exon", "cds_on_exon_boundary", "single_exon_full_cds", "minus", "noncoding", "cds_with_skipped_base", "chunk_cuts_transcript", "chunk_cuts_utr"],
+            rule="transcripts (1..5/6 exons, both strands, coding with the CDS a contiguous run [i,j) of the transcript biased to ends and exon boundaries, or non-coding), with/without sequence, on the whole chromosome or seen through a sequence chunk that contains/cuts/misses it; every transcript, CDS and chromosome position in span+-1, random intervals in each system, UTRs, introns"),
     ],
     rule="Oracle: PosModel lists T (transcript) and C=T[i:j] (CDS). Non-trivial: multi-exon and (CDS at an end or on an exon boundary or minus strand). "
          "Distinct = canonical JSON.",
